@@ -1,8 +1,8 @@
 """C09 — every trainer's LTP / LTD split: correspondence with the Lean routing tables + search.
 
 Real side: every exported trainer (`inferno/learn/__init__.py`) registered on a small real layer
-(`LinearDense(3 -> 2)` or `LinearDirect(3)` with bias and learnable delays + `ExactNeuron` whose
-spikes are forced), stepped through seeded spike histories; after every `trainer()` call the
+(`LinearDense(3 -> 2)`, `LinearDirect(3)` or a small `Conv2D` - kernel weights shared by several
+synaptic pairs - with bias and learnable delays + `ExactNeuron` whose spikes are forced), stepped through seeded spike histories; after every `trainer()` call the
 accumulators `cell.updater.<param>.pos / .neg` are read.
 
 Tie: the magnitudes the trainer routes (`dpost`, `dpre`, the signed kernel outputs, the signed
@@ -50,7 +50,8 @@ SPEC = {
         "homeostasis: the FULL statement (depressive part >= 0, net = k) is false for the code (known finding D9, key C09:homeostasis:neg-part-sign); proved: the potentiating half and the negation witness",
         "bounded updates: the accumulator is configured with the library's multiplicative / power (exponent 2) half and full bounding functions; the expected applied change upper(pos) - lower(neg) is a closed form written in the check ((ub - w)^k * pos - (w - lb)^k * neg), compared in float64 to 1e-12 relative; other bounding functions (scaled, sharp) are not exercised",
         "sign-insensitive hyperparameters (TripletSTDP's triplet rates): checked by a twin cell registered with the absolute values and by the non-negativity of the parts; the magnitudes themselves are still recomputed from the trainer's monitors",
-        "layers: LinearDense(3->2) and LinearDirect(3), receptive axis of length 1; batch sizes 1..3; device CPU",
+        "layers: LinearDense(3->2), LinearDirect(3) (receptive axis of length 1) and small Conv2D geometries (every kernel weight shared by 2..10 output positions; strides, zero padding, 1-2 channels / filters); batch sizes 1..3; device CPU",
+        "kernel trainers: besides the tie, the parts are compared with a closed form written in the check: the documented rule K_post(t)[t >= 0] + K_pre(t)[t < 0], t = t_post - t_pre - d, evaluated pair by pair from the spike history with the exponential kernels, positive contributions summed into the potentiating part and negative ones into the depressing part (1e-9 relative); applies to sum / mean batch reductions and presynaptic times taken at the synapse input (KernelSTDP with delayed views and amax reductions are covered by the tie only); the pair geometry of each connection is written in the check from its documentation",
     ],
 }
 DRIVER = "drivers/C09.lean"
@@ -845,6 +846,25 @@ def shared_parameter_cases(rng):
     return out
 
 
+def cancelling_reward_cases(rng):
+    """three-factor rules with per-sample reward tensors that are NOT all zero but whose batch total (or mean) is exactly
+    zero - equally many / equally weighted rewarded and punished samples, some with an unrewarded sample in between: the
+    rewarded samples still potentiate and the punished ones depress (sum reduction, so that the signed rule has a closed
+    form); with and without update() between the steps"""
+    out = []
+    for family in THREE_FACTOR:
+        for (sa, sb) in ((1, 1), (1, -1), (-1, -1)):
+            for B in (2, 3):
+                cfg = base_cfg(rng, family, sa, sb)
+                g = rng.choice([1.0, 0.5, 2.0])
+                sig = ([g, -g, 0.0] if B == 2 else rng.choice([[g, -g / 2, -g / 2], [-g, -g, 2 * g], [g, 0.0, -g], [-g, g / 2, g / 2]]))
+                cfg.update(B=B, signal_kind="tensor", signal=sig, red="sum", scale=rng.choice([1.0, 0.5, 2.0, -1.0]),
+                           stream="cancelling-rewards")
+                cfg["history"] = rand_history(rng, cfg, 5, p=0.5)
+                out.append(cfg)
+    return out
+
+
 def multistep_cases(rng):
     """histories over which what is handed as depression CHANGES from step to step while the
     parameter is updated (applied + cleared) in between: single-sign three-factor rules whose reward
@@ -945,24 +965,32 @@ def routed_parts(dm, dtype):
     return vals[0], vals[1]
 
 
-def applied_mismatch(cfg, rec, dm):
+def applied_mismatch(cfg, rec, dm, pairs=None):
     """None, or the finding triple when the change applied by `update()` is not upper(pos) - lower(neg) of the routed parts
-    (`pos - neg` with no bounding configured)"""
+    (`pos - neg` with no bounding configured).  The parts are the Lean-routed ones of `dm` (only meaningful while the parts
+    handed to the updater agree with them) or, with `pairs`, the pair-by-pair sums of the independent oracle `pair_parts`"""
     bd = cfg.get("bound")
-    rp, rn = routed_parts(dm, rec["delta"].dtype)
     z = torch.zeros_like(rec["delta"])
-    pp = rp.reshape(rec["part_shape"]).expand(rec["delta"].shape) if rp is not None else z
-    nn_ = rn.reshape(rec["part_shape"]).expand(rec["delta"].shape) if rn is not None else z
+    if pairs is None:
+        rp, rn = routed_parts(dm, rec["delta"].dtype)
+        pp = rp.reshape(rec["part_shape"]).expand(rec["delta"].shape) if rp is not None else z
+        nn_ = rn.reshape(rec["part_shape"]).expand(rec["delta"].shape) if rn is not None else z
+        tol, src, key = TOL, f"the parts of this step (`{dm}`)", ""
+    else:
+        pp, nn_ = pairs[0].reshape(rec["delta"].shape), pairs[1].reshape(rec["delta"].shape)
+        tol, key = PAIR_TOL, ":pairs"
+        src = (f"the positively signed pair contributions {pairs[0].tolist()} and the negatively signed ones {pairs[1].tolist()} "
+               f"(summed pair by pair over the spike history, {layer_s(cfg)})")
     want = bounded_change(bd, rec["old"], pp, nn_)
-    if bool(((rec["delta"] - want).abs() <= TOL * torch.maximum(torch.ones_like(want), want.abs())).all()):
+    if bool(((rec["delta"] - want).abs() <= tol * torch.maximum(torch.ones_like(want), want.abs())).all()):
         return None
     how = ("no bounding" if bd is None else
            f"bounding {bd['mode']} / {bd['fn']} (upper limit {bd['ub']}, lower limit {bd['lb']}) on {target_param(cfg)} = {rec['old'].tolist()}")
     rule = ("potentiation minus depression" if bd is None else
             "upper-bound function of the potentiating part minus lower-bound function of the depressing part")
-    return ("spec", f"C09:applied:{fam_key(cfg)}" + ("" if bd is None else ":bounded"),
+    return ("spec", f"C09:applied:{fam_key(cfg)}" + ("" if bd is None else ":bounded") + key,
             f"{cfg['family']} step {rec['step']} (cell {rec['cell']}): update() with {how} changed {target_param(cfg)} by {rec['delta'].tolist()}, "
-            f"{rule} of the parts of this step (`{dm}`) is {want.tolist()}")
+            f"{rule} of {src} is {want.tolist()}")
 
 
 def split_resp(resp):
@@ -984,7 +1012,7 @@ def explore(ctx) -> Exploration:
     torch.set_default_dtype(torch.float64)
     try:
         cases = cases_for(rng, thorough) + direction_cases(rng) + override_cases(rng) + multistep_cases(rng) + scale_twin_cases(rng)
-        cases += triplet_rate_cases(rng) + bounded_cases(rng) + shared_parameter_cases(rng)
+        cases += triplet_rate_cases(rng) + bounded_cases(rng) + shared_parameter_cases(rng) + cancelling_reward_cases(rng)
         runs = []
         for cfg in cases:
             try:
@@ -1027,40 +1055,50 @@ def explore(ctx) -> Exploration:
             if bool((rec["net"] != 0).any()):
                 ex.nontriv((cfg["family"], rec["line"]))
             ex.count("request", rec["line"].split()[0] + (":" + rec["line"].split()[1] if not rec["line"].startswith("mstdp3") else ""))
-            bad = None
+            bads = []
             if not view_close(rec["s"], ds):
                 if cfg["family"] == "LinearHomeostasis" and is_d9(rec, dm, ds):
                     seen_keys[KNOWN_D9 + ":all"] = seen_keys.get(KNOWN_D9 + ":all", 0) + 1
-                    bad = ("spec", KNOWN_D9, f"LinearHomeostasis({cfg['param']}) hands a depressive part <= 0: observed `{rec['s']}`, "
-                                             f"the split of the signed term must be `{ds}`; the applied change is |k|")
+                    bads.append(("spec", KNOWN_D9, f"LinearHomeostasis({cfg['param']}) hands a depressive part <= 0: observed `{rec['s']}`, "
+                                                   f"the split of the signed term must be `{ds}`; the applied change is |k|"))
                 else:
-                    bad = ("spec", f"C09:spec:{fam_key(cfg)}:{cfg['stream'].split(':')[0]}",
-                           f"{cfg['family']} step {rec['step']} (cell registered with {rec['cell']} rates): parts handed to the updater give `{rec['s']}`, the signed rule gives `{ds}`")
-            if bad is None and rec.get("pairs") is not None:
+                    bads.append(("spec", f"C09:spec:{fam_key(cfg)}:{cfg['stream'].split(':')[0]}",
+                                 f"{cfg['family']} step {rec['step']} (cell registered with {rec['cell']} rates): parts handed to the updater give `{rec['s']}`, the signed rule gives `{ds}`"))
+            if not bads and rec.get("pairs") is not None:
                 # independent oracle: the parts against the pair-by-pair sums over the spike history
-                bad = pair_mismatch(cfg, rec)
+                pm = pair_mismatch(cfg, rec)
+                if pm:
+                    bads.append(pm)
                 ex.count("pair_oracle_checks", f"{cfg['family']}:{cfg['layer']}")
                 if cfg["layer"] == "conv" and bool((rec["pairs"][0] > 0).any()) and bool((rec["pairs"][1] > 0).any()):
                     ex.count("pair_oracle_checks", "shared parameter with contributions of both signs")
-            if bad is None and not view_close(rec["m"], dm):
-                bad = ("model", f"C09:model:{fam_key(cfg)}",
-                       f"{cfg['family']} step {rec['step']}: real parts `{rec['m']}`, Lean routing `{dm}`")
-            if (bad is None or bad[0] == "model") and "delta" in rec:
-                # (a change applied by update() that is not the bound-scaled signed rule is a violation on this input
-                # whether or not the parts agree with the code-shaped model)
+            if not bads and not view_close(rec["m"], dm):
+                bads.append(("model", f"C09:model:{fam_key(cfg)}",
+                             f"{cfg['family']} step {rec['step']}: real parts `{rec['m']}`, Lean routing `{dm}`"))
+            if "delta" in rec:
                 bd = cfg.get("bound")
-                rp, rn = routed_parts(dm, rec["delta"].dtype)
-                bad = applied_mismatch(cfg, rec, dm) or bad
-                if bd is not None:
-                    ex.count("bounded_update_checks", f"{bd['mode']}:{bd['fn']}:" + ("pos+neg" if rp is not None and rn is not None else
-                                                                                  "pos only" if rp is not None else
-                                                                                  "neg only" if rn is not None else "nothing"))
-                ex.count("applied_change_checks", cfg["stream"])
-            if bad and seen_keys.get(bad[1], 0) < 3:
-                seen_keys[bad[1]] = seen_keys.get(bad[1], 0) + 1
-                ex.findings.append(Finding(kind=bad[0], key=bad[1], what=bad[2],
-                                           case={"config": slim(cfg), "step": rec["step"], "request": rec["line"],
-                                                 "expected": r, "observed": f"M {rec['m']} || S {rec['s']}"}))
+                if rec.get("pairs") is not None:
+                    # the applied change against the independent oracle's parts (whatever was handed to the updater)
+                    am = applied_mismatch(cfg, rec, dm, pairs=rec["pairs"])
+                    if am:
+                        bads.append(am)
+                    ex.count("applied_change_checks", cfg["stream"] + " (pair oracle)")
+                if not bads:
+                    rp, rn = routed_parts(dm, rec["delta"].dtype)
+                    am = applied_mismatch(cfg, rec, dm)
+                    if am:
+                        bads.append(am)
+                    if bd is not None:
+                        ex.count("bounded_update_checks", f"{bd['mode']}:{bd['fn']}:" + ("pos+neg" if rp is not None and rn is not None else
+                                                                                      "pos only" if rp is not None else
+                                                                                      "neg only" if rn is not None else "nothing"))
+                    ex.count("applied_change_checks", cfg["stream"])
+            for bad in bads:
+                if seen_keys.get(bad[1], 0) < 3:
+                    seen_keys[bad[1]] = seen_keys.get(bad[1], 0) + 1
+                    ex.findings.append(Finding(kind=bad[0], key=bad[1], what=bad[2],
+                                               case={"config": slim(cfg), "step": rec["step"], "request": rec["line"],
+                                                     "expected": r, "observed": f"M {rec['m']} || S {rec['s']}"}))
         # scale = -g must hand the same parts as scale = +g
         if cfg.get("twin") and prev_recs is not None and len(prev_recs) == len(recs):
             ex.count("scale_twins", cfg["family"])
@@ -1114,6 +1152,11 @@ def explore(ctx) -> Exploration:
                "next to a cell registered with the absolute values, which must be handed identical parts; every applied rule in all sign modes / reward "
                "signs with half bounds (both, upper only, lower only) or a full bound (multiplicative / power 2) on the accumulator and seeded parameter "
                "values, the applied change of every step compared with upper(potentiation) - lower(depression), steps handing a single part included; "
+               "all of the above on Conv2D layers as well (a third of the seeded layers), plus a shared-parameter stream: Conv2D geometries in which every "
+               "kernel weight belongs to several pairs, dense histories (causal and anti-causal pairs of one weight in one sample), kernel trainers "
+               "in all sign modes with and without bounding, every other applied rule with bounding; the kernel trainers' parts are compared with "
+               "the pair-by-pair sums over the spike history (positive contributions -> potentiation, negative -> depression); "
+               "three-factor rules with per-sample reward tensors that are not all zero but sum to exactly zero (sum reduction); "
                "a call is non-trivial when some part is non-zero; distinct = distinct driver request")
     ex.samples = [{"config": {k: v for k, v in cases[0].items() if k != "history"}, "request": runs[0][-1]["line"] if runs[0] else None},
                   {"config": {k: v for k, v in cases[-1].items() if k != "history"}}]
@@ -1149,7 +1192,8 @@ def replay(ctx, data) -> int:
             print("    PAIR-BY-PAIR ORACLE DISAGREES: " + pm[2])
             ok = False
         if "delta" in rec:
-            am = applied_mismatch(cfg, rec, dm)
+            am = (applied_mismatch(cfg, rec, dm, pairs=rec["pairs"]) if rec.get("pairs") is not None else None) or \
+                 (applied_mismatch(cfg, rec, dm) if ok else None)
             if am:
                 print("    APPLIED CHANGE DISAGREES: " + am[2])
                 ok = False
